@@ -5,7 +5,7 @@ quick check against it.  exit 1 on a twin = a rule bound to one spelling (false 
 decide" (acceptable, listed).  Scratch copies live under mkdtemp and are removed.
 
 usage: twin_transform.py [transform ...] [--modules m1,m2] [--keep-going]
-transforms: ifswap cmpflip notnone rettemp contguard andnest lenge
+transforms: noelse addelse docstring extracttest swapconst ifswap cmpflip notnone rettemp contguard andnest lenge
 """
 import ast
 import concurrent.futures
@@ -132,7 +132,122 @@ class LenGe(ast.NodeTransformer):
         return node
 
 
-TRANSFORMS = {'ifswap': IfSwap, 'cmpflip': CmpFlip, 'notnone': NotNone, 'rettemp': RetTemp, 'contguard': ContGuard, 'andnest': AndNest, 'lenge': LenGe}
+class Docstring(ast.NodeTransformer):
+    n = 0
+
+    def visit_FunctionDef(self, node):
+        self.generic_visit(node)
+        if not (node.body and isinstance(node.body[0], ast.Expr) and isinstance(node.body[0].value, ast.Constant) and isinstance(node.body[0].value.value, str)):
+            Docstring.n += 1
+            node.body.insert(0, ast.Expr(value=ast.Constant(value='Documented by the twin generator.')))
+        return node
+
+
+class ExtractTest(ast.NodeTransformer):
+    """if <compound test>: ...  ->  _cond = <test>; if _cond: ...   (not for elif arms, not inside loops' else)"""
+    n = 0
+
+    def _block(self, stmts):
+        out = []
+        for st in stmts:
+            if isinstance(st, ast.If) and isinstance(st.test, (ast.BoolOp, ast.Compare)) and not getattr(st, '_elif', False):
+                ExtractTest.n += 1
+                name = '_cond%d' % ExtractTest.n
+                out.append(ast.Assign(targets=[ast.Name(id=name, ctx=ast.Store())], value=st.test, lineno=st.lineno))
+                st.test = ast.Name(id=name, ctx=ast.Load())
+            out.append(st)
+        return out
+
+    def generic_visit(self, node):
+        # mark elif arms first
+        if isinstance(node, ast.If) and len(node.orelse) == 1 and isinstance(node.orelse[0], ast.If):
+            node.orelse[0]._elif = True
+        super().generic_visit(node)
+        for fld in ('body', 'orelse', 'finalbody'):
+            b = getattr(node, fld, None)
+            if isinstance(b, list) and b and isinstance(b[0], ast.stmt):
+                setattr(node, fld, self._block(b))
+        return node
+
+
+class SwapConstAssigns(ast.NodeTransformer):
+    """a = <const>; b = <const>  ->  b = <const>; a = <const>   (adjacent, distinct plain names)"""
+    n = 0
+
+    def _block(self, stmts):
+        out = list(stmts)
+        i = 0
+        while i + 1 < len(out):
+            a, b = out[i], out[i + 1]
+            if all(isinstance(x, ast.Assign) and len(x.targets) == 1 and isinstance(x.targets[0], ast.Name) and isinstance(x.value, ast.Constant) for x in (a, b)) and a.targets[0].id != b.targets[0].id:
+                SwapConstAssigns.n += 1
+                out[i], out[i + 1] = b, a
+                i += 2
+            else:
+                i += 1
+        return out
+
+    def generic_visit(self, node):
+        super().generic_visit(node)
+        for fld in ('body', 'orelse', 'finalbody'):
+            b = getattr(node, fld, None)
+            if isinstance(b, list) and b and isinstance(b[0], ast.stmt):
+                setattr(node, fld, self._block(b))
+        return node
+
+
+def _jumps(st):
+    return isinstance(st, (ast.Return, ast.Raise, ast.Continue, ast.Break))
+
+
+class NoElse(ast.NodeTransformer):
+    """if c: ...; return X  else: REST   ->   if c: ...; return X   REST      (pylint no-else-return style)"""
+    n = 0
+
+    def _block(self, stmts):
+        out = []
+        for st in stmts:
+            if isinstance(st, ast.If) and st.orelse and st.body and _jumps(st.body[-1]):
+                NoElse.n += 1
+                rest = st.orelse
+                st.orelse = []
+                out.append(st)
+                out.extend(self._block(rest))
+            else:
+                out.append(st)
+        return out
+
+    def generic_visit(self, node):
+        super().generic_visit(node)
+        for fld in ('body', 'orelse', 'finalbody'):
+            b = getattr(node, fld, None)
+            if isinstance(b, list) and b and isinstance(b[0], ast.stmt):
+                setattr(node, fld, self._block(b))
+        return node
+
+
+class AddElse(ast.NodeTransformer):
+    """if c: ...; return X   REST   ->   if c: ...; return X  else: REST     (the reverse)"""
+    n = 0
+
+    def _block(self, stmts):
+        for i, st in enumerate(stmts[:-1]):
+            if isinstance(st, ast.If) and not st.orelse and st.body and _jumps(st.body[-1]):
+                AddElse.n += 1
+                st.orelse = self._block(stmts[i + 1:])
+                return stmts[:i + 1]
+        return stmts
+
+    def generic_visit(self, node):
+        super().generic_visit(node)
+        for fld in ('body', 'orelse', 'finalbody'):
+            b = getattr(node, fld, None)
+            if isinstance(b, list) and b and isinstance(b[0], ast.stmt):
+                setattr(node, fld, self._block(b))
+        return node
+
+
+TRANSFORMS = {'noelse': NoElse, 'addelse': AddElse, 'docstring': Docstring, 'extracttest': ExtractTest, 'swapconst': SwapConstAssigns, 'ifswap': IfSwap, 'cmpflip': CmpFlip, 'notnone': NotNone, 'rettemp': RetTemp, 'contguard': ContGuard, 'andnest': AndNest, 'lenge': LenGe}
 
 
 def run_check(args):
